@@ -1926,12 +1926,13 @@ def check_tree(st: fw.Stream, root: ASTNode, case: dict, expect_root_parent=None
 def check_replace(st: fw.Stream, root: ASTNode, r: random.Random, case: dict) -> None:
     nodes = all_nodes(root)
     parents = [n for _, _, n in nodes if children_of(n)]
-    for _ in range(min(4, len(parents))):
-        p = r.choice(parents)
+    picks = [r.choice(parents) for _ in range(min(4, len(parents)))]
+    # names inside a local declaration (wrapped in AttributedName) are children too: always try one of each kind when present
+    picks += [n for n in parents if isinstance(n, A.LocalAssign)][:2]
+    for p in picks:
         kids = children_of(p)
-        slot, victim = r.choice(kids)
-        if ".name" in slot or ".attribute" in slot:
-            continue   # names inside a local declaration are not direct slots
+        wrapped = [k for k in kids if ".name" in k[0] or ".attribute" in k[0]]
+        slot, victim = r.choice(wrapped) if (wrapped and isinstance(p, A.LocalAssign) and r.random() < 0.7) else r.choice(kids)
         new = A.Name(T(), "replacement")
         before = [(s, id(c)) for s, c in kids]
         p.replace_child(victim, new)
@@ -3205,11 +3206,12 @@ LEAN_OBLIGATIONS.update({
     ),
     "C17": dict(
         modules=["Tumfl.Props.C17"],
-        obligations=["Tumfl.Props.C17_links", "Tumfl.Props.C17_walk", "Tumfl.Inst.schema_links", "Tumfl.Inst.schema_walk", "Tumfl.Inst.schema_exercised", "Tumfl.Inst.schema_no_mixed"],
+        obligations=["Tumfl.Props.C17_links", "Tumfl.Props.C17_walk", "Tumfl.Props.C17_replace", "Tumfl.Inst.schema_replace", "Tumfl.Inst.schema_links", "Tumfl.Inst.schema_walk", "Tumfl.Inst.schema_exercised", "Tumfl.Inst.schema_no_mixed"],
         extractors=["Schema"],
         tie_names=["T1:Schema (per class: structural slots by reflection, attributes yielded by ASTNode.__dir, linked and walked child slots, on a sample covering all 34 classes)",
                    "T2:resolve (resolved trees)"],
-        partial_hypotheses=["replace_child and the tree after dependency resolution are checked by the oracle streams only"],
+        partial_hypotheses=["replace_child: decided per class and slot on the extracted schema (measured on the real method), not a theorem about arbitrary trees; the tree after "
+                            "dependency resolution is checked by the oracle streams only"],
     ),
     "C18": dict(
         modules=["Tumfl.Props.C17"],
@@ -3247,9 +3249,9 @@ LEAN_OBLIGATIONS.update({
 LAYOUT_OBL = ["Tumfl.Props.C08_remove_separators", "Tumfl.Props.C08_add_spacing", "Tumfl.Props.C08_remove_orphaned", "Tumfl.Props.C08_resolve_tokens",
               "Tumfl.Props.C08_join", "Tumfl.Props.C08_indent_brackets", "Tumfl.Props.C08_string_wrap", "Tumfl.Props.C08_wrap_progress", "Tumfl.Props.C02_boundary",
               "Tumfl.Props.C08_comment_wf", "Tumfl.Props.C08_comment_text"]
-PIECE_OBL = ["Tumfl.Props.Parse_printable", "Tumfl.Props.C10_parse_sound", "Tumfl.Props.C03_parse_complete", "Tumfl.Props.Print_sim", "Tumfl.Props.Print_sim_parseToks", "Tumfl.Props.Print_readings", "Tumfl.Props.C11_roundtrip", "Tumfl.Props.C11_emit_is_par", "Tumfl.Props.C11_emit_roundtrip", "Tumfl.Props.C11_minified", "Tumfl.Inst.brackets_sound_all",
+PIECE_OBL = ["Tumfl.Props.Same_program", "Tumfl.Props.Same_tokens", "Tumfl.Props.Same_normS_eq", "Tumfl.Props.Same_normS_strength", "Tumfl.Props.Parse_printable", "Tumfl.Props.C10_parse_sound", "Tumfl.Props.C03_parse_complete", "Tumfl.Props.Print_sim", "Tumfl.Props.Print_sim_parseToks", "Tumfl.Props.Print_readings", "Tumfl.Props.C11_roundtrip", "Tumfl.Props.C11_emit_is_par", "Tumfl.Props.C11_emit_roundtrip", "Tumfl.Props.C11_minified", "Tumfl.Inst.brackets_sound_all",
              "Tumfl.Props.C06_quoted", "Tumfl.Props.C06_long", "Tumfl.Props.C06_forms", "Tumfl.Props.C06_wrapped", "Tumfl.Props.C07_partial", "Tumfl.Props.C13_emit_on"]
-FORMAT_MODULES = ["Tumfl.Props.Parse", "Tumfl.Props.Print", "Tumfl.Props.C08", "Tumfl.Props.C11", "Tumfl.Props.C06", "Tumfl.Props.C07", "Tumfl.Props.C13"]
+FORMAT_MODULES = ["Tumfl.Props.Same", "Tumfl.Props.Parse", "Tumfl.Props.Print", "Tumfl.Props.C08", "Tumfl.Props.C11", "Tumfl.Props.C06", "Tumfl.Props.C07", "Tumfl.Props.C13"]
 FORMAT_PARTIAL = ["proved: every token reading of the emitted pieces (each statement/block separator independently a `;` or nothing) is accepted by the reference parser with the "
                   "same tree modulo parentheses and empty statements, for every style and printable tree (Print_sim); the source is parsed to a tree related to the reference "
                   "tree (parser simulation, C03/C10); each layout pass keeps the pieces, literals and their `\\z` wrapping read back, comments are well-formed, adjacent pieces "
